@@ -50,13 +50,13 @@ class Run(object):
     """One complete LP-mode run of the repository on a case."""
 
     def __init__(self, inst, opts, mode='eb', choices=(), noise=None, time_limit=None,
-                 hook=None, text=None):
+                 hook=None, text=None, salt=0):
         self.inst = inst
         self.opts = opts
         self.text = text if text is not None else refmodel.render(inst, noise)
         self.path = write_instance(self.text)
         self.argv = strategies.build_argv(opts, self.path, inst['na'])
-        self.backend = refbackend.Backend(mode, choices, hook=hook)
+        self.backend = refbackend.Backend(mode, choices, hook=hook, salt=salt)
         self.time_limit = time_limit
         self.solver = None
 
@@ -85,7 +85,7 @@ def describe_case(case):
     if 'opts' in case:
         d['argv'] = strategies.build_argv(case['opts'], '<file>', case['inst']['na'],
                                           bf=case.get('bf', False))
-    for k in ('choices', 'mode', 'plan', 'ops', 'time_limit', 'kind', 'matching'):
+    for k in ('choices', 'salt', 'mode', 'plan', 'ops', 'time_limit', 'kind', 'matching'):
         if k in case:
             d[k] = case[k]
     return d
